@@ -7,10 +7,11 @@ import Driver.GraphMatcherEngine
 import Driver.Petri
 import Driver.Deficiency
 import Driver.Views
+import Driver.Canon
 open Lean
 
 /-- All command handlers; the first one that knows the command answers. -/
-def handlers : List Driver.Handler := [Driver.Store.handle, Driver.Match.handle, Driver.ITS.handle, Driver.SubgraphSearch.handle, Driver.GME.handle, Driver.Petri.handle, Driver.Deficiency.handle, Driver.Views.handle]
+def handlers : List Driver.Handler := [Driver.Store.handle, Driver.Match.handle, Driver.ITS.handle, Driver.SubgraphSearch.handle, Driver.GME.handle, Driver.Petri.handle, Driver.Deficiency.handle, Driver.Views.handle, Driver.Canon.handle]
 
 def dispatch (line : String) : Json :=
   match Json.parse line with
